@@ -140,7 +140,7 @@ def run(chk: harness.Check):
         "receive matching severities; (D4) in RecipeCollector::parse_events the Event::Error arm calls SourceReport::retain with a Stage::Parse predicate and "
         "returns PassResult::new(None, ..), every other PassResult::new carries Some(content); (D5) PassResult::is_valid is has_output() ∧ ¬has_errors(); "
         "(D6) every Number::Fraction built in the parser takes its denominator from frac() or under the `== 0` rejection; (D7) the out-of-range diagnostic of an intermediate reference is guarded by the "
-        "n-th element of the is_step-filtered enumeration of the current section / a comparison with content.sections.len() (shared with C06.D6); (D8) Text::is_text_empty, on which the empty-name/unit/key/value checks hang, examines every fragment. Weak: which condition triggers a "
+        "n-th element of the is_step-filtered enumeration of the current section / a comparison with content.sections.len() (shared with C06.D6); (D8) Text::is_text_empty, on which the empty-name/unit/key/value checks hang, examines every fragment; (D9) the primary label stays labels[0]: constructors start the list with it and it is only ever pushed to. Weak: which condition triggers a "
         "diagnostic and where its labels point are not decided.")
     chk.trusted = ["rustc MIR", "tables/diagnostics.toml (reviewed catalogue; message texts are listed for the reader and never compared)"]
     cons = constructions(F)
@@ -180,6 +180,52 @@ def run(chk: harness.Check):
     import c06
     c06.d6_intermediate(chk, F, rule="C07.D7-intermediate-range")
     d8_empty_predicate(chk, F)
+    d9_primary_label(chk, F)
+
+
+def d9_primary_label(chk, F):
+    """`labels[0]` is the primary label (the one given to error!/warning!): SourceDiag::error / warning start the label list
+    with exactly their `label` argument, and the only thing the library ever does to a diagnostic's own label list afterwards
+    is Vec::push (no insert, sort, swap, remove ... on `self.labels`; write_report sorts a copy)."""
+    from flow import resolve, show, leaves
+    from cfgq import aggregates
+    n = 0
+    for name in ("error", "warning"):
+        fs = [g for g in F.find("error::SourceDiag::" + name) if not g.is_closure()]
+        for g in fs:
+            for ff, i, st, d in aggregates(F, g.key, "error::SourceDiag"):
+                n += 1
+                e = resolve(ff, d["labels"])
+                txt = show(e, -50)
+                ok = "label" in {l[6:] for l in leaves(e) if l.startswith("param:")} and not any(c in txt for c in ("Vec::<T>::new", "with_capacity"))
+                if not ok and "into_vec" in txt:
+                    # `vec![label]` lowers to a boxed one-element array written through a raw pointer
+                    arrs = [s2 for _, _, s2 in ff.iter_stmts() if s2["k"] == "assign" and s2["rv"]["k"] == "agg" and s2["rv"].get("agg") == "array"
+                            and "macro:vec" in s2.get("macros", [])]
+                    ok = len(arrs) == 1 and len(arrs[0]["rv"]["ops"]) == 1 and show(resolve(ff, arrs[0]["rv"]["ops"][0]), -50) == "label"
+                chk.expect(ok, "C07.D9-primary-label", f"SourceDiag::{name}|labels", f"{ff.file}:{st.get('line')}",
+                           f"SourceDiag::{name} does not start the label list with its `label` argument ({txt[:80]})",
+                           sample=f"{ff.file}:{st.get('line')}: labels: vec![label]")
+    chk.floor("C07.D9-primary-label", "SourceDiag::{error,warning} constructions", n, 2)
+    touched = 0
+    for k, f in F.funcs.items():
+        if f.crate != "cooklang" or f.generated:
+            continue
+        for b, t in f.calls():
+            if not t.get("args"):
+                continue
+            txt = show(resolve(f, t["args"][0]), -50)
+            if ".labels" not in txt or "self" not in txt and "SourceDiag" not in k:
+                continue
+            ck = (callee_key(t) or "")
+            m = ck.rsplit("::", 1)[-1]
+            if m in ("as_slice", "into", "iter", "len", "is_empty", "deref", "first", "as_ref", "clone", "borrow"):
+                continue
+            touched += 1
+            chk.expect(m == "push", "C07.D9-primary-label", f"{k.rsplit('::', 2)[-2]}::{k.rsplit('::', 1)[-1]}|labels.{m}", f.where(b),
+                       f"a diagnostic's own label list is modified with `{m}`: labels[0] would stop being the primary label the check attached to the offending construct",
+                       sample=f"{f.where(b)}: labels.push(label)")
+    chk.floor("C07.D9-primary-label", "label list mutations", touched, 1)
 
 
 def d8_empty_predicate(chk, F):
@@ -200,6 +246,11 @@ def d8_empty_predicate(chk, F):
     if form_all:
         clos = [g for g in F.region_funcs(f.key) if g.is_closure()]
         form_all = len(clos) == 1 and (lambda t: "is_empty(" in t and "trim" in t and ".text" in t)(show(c09.return_expr(clos[0]), -50))
+    if not form_all and e[0] == "un" and str(e[1]).startswith("Not") and isinstance(e[2], tuple) and e[2][0] == "call" and e[2][1].endswith("Iterator>::any") \
+            and any(c.endswith("text::Text::fragments") for c in calls):
+        clos = [g for g in F.region_funcs(f.key) if g.is_closure()]
+        ce = c09.return_expr(clos[0]) if len(clos) == 1 else None
+        form_all = ce is not None and ce[0] == "un" and str(ce[1]).startswith("Not") and (lambda t: "is_empty(" in t and "trim" in t and ".text" in t)(show(ce, -50))
     form_whole = e[0] == "call" and e[1].endswith("is_empty") and any(c.endswith(("Text::text", "Text::text_trimmed", "Text::text_outer_trimmed")) for c in calls) \
         and any("trim" in c for c in calls)
     chk.expect(form_all or form_whole, "C07.D8-empty-predicate", "is_text_empty|every fragment", f"{f.file}:{f.line}",
